@@ -652,12 +652,9 @@ class MockCA:
                                     "authz": aid, "acct": i}
                 chs.append(cid)
             if self.o["chall_perm"]:
-                chs = [chs[k % len(chs)] for k in self.o["chall_perm"]][: len(chs)] if chs else chs
-                seen = []
-                for c in chs:
-                    if c not in seen:
-                        seen.append(c)
-                chs = seen
+                # a permutation of what is offered: nothing is dropped when fewer types apply (IP identifiers)
+                perm = [k for k in self.o["chall_perm"] if k < len(chs)]
+                chs = [chs[k] for k in perm] + [c for k, c in enumerate(chs) if k not in perm]
             self.authzs[aid] = {"id": aid, "ident": {"type": ident["type"], "value": base}, "wildcard": wildcard,
                                 "status": st, "challs": chs, "order": oid, "polls": 0, "triggered": False,
                                 "orig": val, "acct": i}
